@@ -45,6 +45,11 @@ func nan() float64 {
 	return z / z
 }
 
+// an array VALUE that is not addressable at the call site
+func mka(n int) [3]int { return [3]int{n, n + 10, vrt.V(9100, 30)} }
+
+type wide int64
+
 func tick(n int) int { return vrt.V(9000+n%7, n) }`
 
 var strAlphabet = []string{"a", "z", "é", "€", "\U0001F600", "\xff", "\xc3", "\xe2\x82", "\xed\xa0\x80", "\x80", "\xf0\x9f", "\x00",
@@ -104,6 +109,7 @@ func (c *fctx) rangeStmt() []*S {
 	form := r.Intn(5) // 0: k,v :=   1: k :=   2: _,v :=   3: none   4: k,v = (outer variables)
 	keyInt, valInt := true, true
 	coll := ""
+	var typedAssignUse *S
 	switch kind {
 	case "slice":
 		if vs := c.sc.visible(vSlice); len(vs) > 0 && r.Chance(1, 2) {
@@ -122,6 +128,16 @@ func (c *fctx) rangeStmt() []*S {
 		pre = append(pre, &S{K: SDecl, ID: c.g.id(), Name: coll, E: &X{K: XRaw, S: fmt.Sprintf("[3]int{%s, %s, 30}", c.pure(1).str(Mode{}), c.pure(1).str(Mode{}))}})
 		c.sc.declare(coll, vArr)
 		loop.E = v(coll)
+		if r.Chance(1, 3) {
+			// the operand is an array value that cannot be sliced in place
+			pre, coll = nil, ""
+			if r.Bool() {
+				loop.E = &X{K: XCall, Name: "mka", Args: []*X{c.pure(1)}}
+			} else {
+				loop.E = &X{K: XRaw, S: fmt.Sprintf("[3]int{%s, %s, 30}", c.pure(1).str(Mode{}), c.pure(1).str(Mode{}))}
+			}
+			c.g.mark("range_array_operand_not_addressable")
+		}
 	case "string":
 		valInt = false
 		loop.E = &X{K: XStr, S: c.randString()}
@@ -175,6 +191,21 @@ func (c *fctx) rangeStmt() []*S {
 		keyInt = false
 		loop.E = &X{K: XRaw, S: fmt.Sprintf("small(%d)", r.Range(0, 3))}
 		form = 1
+		if r.Chance(1, 2) {
+			// '=' form onto an outer variable of a sized / named integer type with an untyped
+			// constant limit: the limit takes the variable's type
+			ty := []string{"int64", "uint8", "wide", "small"}[r.Intn(4)]
+			w := c.fresh([]string{"wq", "wq2"})
+			pre = append(pre, &S{K: SRaw, ID: c.g.id(), Src: fmt.Sprintf("var %s %s", w, ty)})
+			c.sc.declare(w, vAny)
+			loop.E = lit(r.Range(0, 3))
+			loop.Name, loop.Op = w, "="
+			form = 5
+			name := d.fresh(intPool)
+			typedAssignUse = &S{K: SDecl, Name: name, E: &X{K: XRaw, S: "int(" + w + ")"}}
+			d.sc.declare(name, vInt)
+			c.g.mark("range_int_assign_form_typed_variable_constant_limit")
+		}
 	case "iter", "pull":
 		return c.consumerLoop(kind == "pull")
 	}
@@ -212,6 +243,9 @@ func (c *fctx) rangeStmt() []*S {
 		}
 	}
 	var body []*S
+	if typedAssignUse != nil {
+		body = append(body, typedAssignUse)
+	}
 	if loop.Op == ":=" {
 		for _, n := range []string{loop.Name, loop.Name2} {
 			if n != "" && n != "_" {
@@ -225,7 +259,7 @@ func (c *fctx) rangeStmt() []*S {
 		body = append(body, &S{K: SDecl, Name: name, E: &X{K: XRaw, S: "int(" + loop.Name2 + ")"}})
 		d.sc.declare(name, vInt)
 	}
-	if !keyInt && loop.Name != "" && loop.Name != "_" && kind != "mapnan" {
+	if !keyInt && loop.Name != "" && loop.Name != "_" && kind != "mapnan" && form != 5 {
 		name := d.fresh(intPool)
 		body = append(body, &S{K: SDecl, Name: name, E: &X{K: XRaw, S: "int(" + loop.Name + ")"}})
 		d.sc.declare(name, vInt)
@@ -270,6 +304,12 @@ func (c *fctx) rangeStmt() []*S {
 	loop.Body = append(body, inner...)
 	if hasYield(loop.Body) {
 		c.g.mark("range_body_yields")
+	}
+	if form == 5 {
+		// the variable keeps the last key after the loop
+		after := c.fresh(intPool)
+		c.sc.declare(after, vInt)
+		return append(pre, loop, &S{K: SDecl, ID: c.g.id(), Name: after, E: &X{K: XRaw, S: "int(" + loop.Name + ")"}})
 	}
 	return append(pre, loop)
 }
